@@ -8,9 +8,12 @@ import os
 import pickle
 import random
 import select
+import shutil
 import signal
+import tempfile
 import time
 
+from .common import tmp_root
 from .drive import asm, mods, watchdog, Hang
 from . import grammar as G
 
@@ -23,10 +26,16 @@ VALID = [
     ".link 3000\nx: .blkb y - x\n.word y\ny = x + 10\n",
     "mov 2+2(r1), @#177714\n1: sob r0, 1\n.rad50 /abc/\n.ascii \"x\" <15> <12>\n",
     "tbl: .word 1, 2, 3\nlen = . - tbl\n.even\n.word len / 2, tbl\nmake_raw \"o.raw\"\n",
+    # programs that include the SAME files (same paths) as the probes: per-file bookkeeping ('.once' counters, anything
+    # remembered per include path) must not survive an assembly
+    ".include \"once.mac\"\n.word once1\n",
+    "nop\n.include \"pinc.mac\"\n.include \"once.mac\"\n.include \"once.mac\"\n",
+    ".include \"sub/pinc2.mac\"\n.include \"diag.mac\"\n",
 ]
-WARNING = [".byte\n", ".list\n", "mov @r1, r0\n", ".word\n.title demo\n", "clr @(r2)\nnop halt\n"]
+WARNING = [".byte\n", ".list\n", "mov @r1, r0\n", ".word\n.title demo\n", "clr @(r2)\nnop halt\n", ".include \"diag.mac\"\n"]
 ERROR = [".word undef\n", ".byte 400\n", "mov r0\n", "br far\n.blkb 1000\nfar:\n", "x: nop\nx: nop\n", ".word 1/0\n",
-         ".byte 1\n.word 2\n", ". = . - 2\n", ".link 1000\n.link 2000\n", ".include \"nope.mac\"\n", ".error stop\n.word 18\n"]
+         ".byte 1\n.word 2\n", ". = . - 2\n", ".link 1000\n.link 2000\n", ".include \"nope.mac\"\n", ".error stop\n.word 18\n",
+         ".include \"bad.mac\"\n", "nop\n.include \"bad.mac\"\n.include \"once.mac\"\n"]
 CRITICAL = [".word (1\n", "mov r0,\n", ".ascii \"abc\n", "a = \n", "nop , r0\n", ".word ^Q1\n", "mov #\n"]
 CRASHERS = ["@.\n", "clr (%a)\n", ".word 1 { }\n", "make_wav \"αβγ\"\n", "'\\", "make_raw \"a\" <4294967296.>\n", "ldf %a, ac0\n", "br #.\n"]
 LAZY_ERROR = ["nop\n.blkb 2\n.word later + undef1\nlater:\n", "a = b / 2\nb = c - undef2\nc = 1\n.word a\n", ".byte 1\n.blkb n\n.word 2\nn = 2\n"]
@@ -171,11 +180,18 @@ after:  .include "once.mac"
         .include "once.mac"
         .include "sub/pinc2.mac"
 """
+P6 = """        .include "diag.mac"
+        .word dq
+        .include "bad.mac"
+"""
 P4FS = {
     "pinc.mac": "px1 == 5\n.word px1, priv\npriv = 3\nplbl:: nop\n",
     "sub/pinc2.mac": "insert_file \"../data.bin\"\n.word . / 2\n",
     "once.mac": ".once\nonce1: .word 1\n",
     "data.bin": bytes(range(8)),
+    # parse-time diagnostics and once-only constructs inside included files
+    "diag.mac": "dq = 'a'\n.byte\n.even\nmov @r1, r0\n",
+    "bad.mac": "r3: nop\n.repeat 2 { lbl: nop }\n.word 18\n",
 }
 PROBES = [
     ("p1", [("p1.mac", P1)], None),
@@ -183,11 +199,12 @@ PROBES = [
     ("p3", [("p3a.mac", P3A), ("p3b.mac", P3B)], None),
     ("p4", [("p4.mac", P4)], P4FS),
     ("p5", [("p5.mac", P5)], None),
+    ("p6", [("p6.mac", P6)], P4FS),
 ]
 
 
-def run_probe(files, fs):
-    r = asm(files, timeout=20.0, fs=fs, listing=True)
+def run_probe(files, fs, root=None):
+    r = asm(files, timeout=20.0, fs=fs, listing=True, root=(root if fs is not None else None))
     reports = [(sev, ident, tuple((sp[0], sp[1], sp[2]) for sp in spans)) for sev, ident, spans in r["reports"]]
     return {"outcome": r["outcome"], "exc": r["exc"], "base": r["base"], "code": r["code"], "reports": reports,
             "emitted": [tuple(e) for e in r["emitted"]], "listing": r["listing"]}
@@ -196,6 +213,10 @@ def run_probe(files, fs):
 def _play_child(kinds, seed, wfd):
     rnd = random.Random(seed)
     log = []
+    # ONE directory for the whole history and the probes: the included files keep their absolute paths from assembly to assembly
+    root = tempfile.mkdtemp(prefix="hist-", dir=tmp_root())
+    allfs = dict(G.FS)
+    allfs.update(P4FS)
     for k in kinds:
         mode, text, timeout = program_for(k, rnd)
         t0 = time.time()
@@ -204,7 +225,8 @@ def _play_child(kinds, seed, wfd):
                 outcome = assemble_raising(text, timeout)
             else:
                 # the state an interrupt leaves behind stays (that is the history the property worries about)
-                r = asm([(G.MAIN, text)], timeout=timeout, fs=(G.FS if G.NEEDS_FS.search(text) else None), reset_after_hang=False)
+                r = asm([(G.MAIN, text)], timeout=timeout, fs=(allfs if G.NEEDS_FS.search(text) else None), reset_after_hang=False,
+                        root=(root if G.NEEDS_FS.search(text) else None))
                 outcome = r["outcome"] + (":" + (r["exc"] or "").split(":")[0] if r["outcome"] == "exception" else "")
         except Hang:
             outcome = "hang"
@@ -212,9 +234,10 @@ def _play_child(kinds, seed, wfd):
     probes = {}
     for name, files, fs in PROBES:
         try:
-            probes[name] = run_probe(files, fs)
+            probes[name] = run_probe(files, (allfs if fs is not None else None), root)
         except BaseException as ex:  # noqa
             probes[name] = {"outcome": "harness-exception", "exc": f"{type(ex).__name__}: {ex}"}
+    shutil.rmtree(root, ignore_errors=True)
     os.write(wfd, pickle.dumps({"log": log, "probes": probes, "final": readings()}))
 
 
